@@ -17,6 +17,9 @@ Recognised shapes of AnfTransformer.visit_<Node> (anything else raises Untransla
                       if isinstance(node, trivial_node_types) and not _is_py2_name_constant(node): return True
                       if isinstance(node, ast.Constant) and node.value == Ellipsis: return True
                       return False                                                  -> trivial_types_gen
+  transform(node, ctx, config=None):   return AnfTransformer(ctx, config).visit(node)       (nothing else)
+  no state carried between calls: no use of `anno` anywhere in the module (annotations written on / read from
+  the tree), no global/nonlocal/globals(), module-level assignments only of lambdas, constants and object()
 Also translated: the default configuration built in __init__ when config is None, the classes
 _ensure_node_in_anf treats as transparent wrappers, and DummyGensym.new_name (stem, base).
 """
@@ -112,6 +115,20 @@ def translate(repo):
     path = os.path.join(repo, 'malt', 'pyct', 'common_transformers', 'anf.py')
     with open(path) as f:
         tree = ast.parse(f.read())
+    # state that transform() could carry from one call to the next
+    for n in ast.walk(tree):
+        if isinstance(n, ast.Name) and n.id in ('anno', 'globals') or isinstance(n, (ast.Global, ast.Nonlocal)):
+            _fail(n, 'state carried between calls of transform (annotation on the tree / global): ' + ast.unparse(n))
+        if isinstance(n, ast.ImportFrom) and any(a.name == 'anno' for a in n.names):
+            _fail(n, 'state carried between calls of transform: the module imports anno')
+    for n in tree.body:
+        if isinstance(n, ast.Assign):
+            v = n.value
+            if not (isinstance(v, (ast.Lambda, ast.Constant)) or ast.unparse(v) == 'object()'):
+                _fail(n, 'module-level mutable state: ' + ast.unparse(n)[:80])
+    tr = [n for n in tree.body if isinstance(n, ast.FunctionDef) and n.name == 'transform']
+    if len(tr) != 1 or [ast.unparse(x) for x in _strip(tr[0].body)] != ['return AnfTransformer(ctx, config).visit(node)']:
+        raise Untranslatable('untranslatable: anf.py: transform() is not `return AnfTransformer(ctx, config).visit(node)`')
     cls = [n for n in tree.body if isinstance(n, ast.ClassDef) and n.name == 'AnfTransformer']
     if len(cls) != 1:
         raise Untranslatable('untranslatable: anf.py: class AnfTransformer not found')
